@@ -315,6 +315,24 @@ theorem get_step_sub {s : Store} (hg : Good s) (op : Op) (k' : Bytes)
         · subst e; rw [aget_aerase_eq] at h; cases h
         · rwa [aget_aerase_ne _ _ _ e] at h
 
+/-- **`exists` and `get` agree** on every store that satisfies the overlay invariant (an index entry
+    of an `emb:` key has its metadata record) -/
+theorem exists_eq_get_isSome {s : Store} (hg : Good s) (k : Bytes) : exists_ s k = (get s k).isSome := by
+  by_cases hc : isCacheKey k = true
+  · have hk : classify k = .cache := by simpa [isCacheKey] using hc
+    rw [get_cache s k hk]
+    unfold exists_; simp [hk]
+  · have hc0 : isCacheKey k = false := by simpa using hc
+    have hk' : classify k ≠ .cache := by simpa [isCacheKey] using hc0
+    rw [good_get hg k hc0]
+    unfold exists_
+    cases hcl : classify k <;> simp only [] <;> try (first | rfl | exact absurd hcl hk')
+    cases hi : idxGet s.vocab k with
+    | none => simp
+    | some id =>
+      have := hg.idxmd k id hcl hi
+      simp [this]
+
 /-- the filter has been given every key the router answers -/
 def Cover (b : BStore) : Prop := ∀ k, (get b.store k).isSome = true → k ∈ b.added
 
